@@ -29,6 +29,9 @@ class Cfg:
         self.pos_p = 0.1
         # control transfers out of a with-block: the specification gives them no meaning (which op gets the context?)
         self.jumps_in_with = False
+        # 'any': every case header kind under every switch header; 'matching': regular cases under regular switches and
+        # menu cases under menu switches; 'decompilable': matching + only switch operations the decompiler knows as switches
+        self.switch_pairs = 'matching'
         self.__dict__.update(kw)
 
 
@@ -42,6 +45,7 @@ class Gen:
         self.posn = 0
         self.vars_in_scope = []  # macro variables usable as constants
         self.in_macro = False
+        self.intlike_vars = set()
 
     # ---- values
     def uid(self):
@@ -54,7 +58,9 @@ class Gen:
     def var(self):
         pool = ["$A", "$B", "$SCENARIO_MAIN", "VAR_X", "$EVENT_LOCAL"]
         if self.vars_in_scope and self.r.random() < 0.5:
-            return ("const", self.r.choice(self.vars_in_scope))
+            v = self.r.choice(self.vars_in_scope)
+            self.intlike_vars.add(v)  # used where the grammar wants a number / constant: callers must pass one
+            return ("const", v)
         return ("const", self.r.choice(pool))
 
     def intlike(self):
@@ -160,9 +166,14 @@ class Gen:
             return ("BranchSum", (self.pos(), ("int", self.r.randint(0, 10)), n))
         return ("BranchSum", (v, ("int", self.r.randint(0, 10)), n))
 
+    MENU_SWITCHES = ("message_SwitchMenu", "message_SwitchMenu2")
+    KNOWN_OP_SWITCHES = ("message_SwitchMenu", "message_SwitchMenu2", "ProcessSpecial", "message_Menu", "main_EnterAdventure")
+
     def swhdr(self):
         n = ("int", self.uid())
         c = self.r.randint(0, 7)
+        if self.c.switch_pairs == "decompilable" and c == 7:
+            c = 6
         if c == 0:
             return ("Switch", (n,))
         if c == 1:
@@ -176,15 +187,18 @@ class Gen:
         if c == 5:
             return ("SwitchSector", ())
         if c == 6:
-            return (self.r.choice(["message_SwitchMenu", "message_Menu", "ProcessSpecial", "SwitchDirection"]),
-                    (n, self.intlike()))
+            names = list(self.KNOWN_OP_SWITCHES) + ([] if self.c.switch_pairs == "decompilable" else ["SwitchDirection"])
+            return (self.r.choice(names), (n, self.intlike()))
         if self.r.random() < self.c.pos_p:
             return (f"swop_{n[1]}", (n, self.pos()))
         return (f"swop_{n[1]}", (n,))
 
-    def casehdr(self):
+    def casehdr(self, swsig=None):
         n = ("int", self.uid())
         c = self.r.randint(0, 4)
+        if swsig is not None and self.c.switch_pairs != "any":
+            # the kinds of case headers a switch of that kind takes (regular cases / menu cases)
+            c = self.r.randint(3, 4) if swsig[0] in self.MENU_SWITCHES else self.r.randint(0, 2)
         if c == 0:
             return ("case", ("Case", (n,)))
         if c == 1:
@@ -230,9 +244,12 @@ class Gen:
         return ("with", self.r.choice(CTX_KINDS), self.intlike(), inner)
 
     def macro_call(self):
-        name, nvars = self.r.choice(self.c.macros)
+        name, flags = self.r.choice(self.c.macros)
         extra = self.r.choice([0, 0, 0, 1])
-        return ("macro", name, [self.param() for _ in range(nvars + extra)])
+        return ("macro", name, [self.intlike_noppl() if f else self.param() for f in flags] + [self.param() for _ in range(extra)])
+
+    def intlike_noppl(self):
+        return self.intlike()
 
     def plain(self, inloop=False, incase=False):
         c = self.r.random()
@@ -275,7 +292,7 @@ class Gen:
                 h = ("default",)
                 hasdef = True
             else:
-                h = self.casehdr()
+                h = self.casehdr(hdr)
             body = self.block(depth - 1, inloop, True, allow_term=self.r.random() < 0.3) if self.r.random() < 0.8 else []
             if body and self.r.random() < 0.6 and self.c.ctrl_in_blocks:
                 body.append(("ctrl", "break"))
@@ -366,12 +383,15 @@ class Gen:
     def gen_macros(self, n, prefix="mac", callable_extra=()):
         """n macros with an acyclic call graph (macro i may call macros j > i and the extra ones);
         labels are local to each macro. Returns list of (name, vars, body) in topological (caller first) order."""
-        specs = [(f"{prefix}_{i}", self.r.randint(0, 3)) for i in range(n)]
+        names = [(f"{prefix}_{i}", self.r.randint(0, 3)) for i in range(n)]
         saved = (self.c.macros, self.c.macro_p, self.labels_defined, self.vars_in_scope)
         out = []
-        for i, (name, nv) in enumerate(specs):
+        specs = [None] * n
+        # callees first, so that the requirements on their arguments are known when their callers are generated
+        for i in reversed(range(n)):
+            name, nv = names[i]
             vars_ = [f"$p{i}_{k}" for k in range(nv)]
-            self.c.macros = specs[i + 1:] + list(callable_extra)
+            self.c.macros = [x for x in specs[i + 1:] if x is not None] + list(callable_extra)
             self.c.macro_p = 0.25 if self.c.macros else 0.0
             self.labels_defined = []
             self.vars_in_scope = vars_
@@ -381,9 +401,44 @@ class Gen:
                 body.append(("ctrl", "return"))
             body = self.fix(body, list(self.labels_defined)) or [self.op()]
             out.append((name, vars_, body))
+            specs[i] = (name, [self.passes_on_intlike(v, body) for v in vars_])
+        out.reverse()
         self.c.macros, self.c.macro_p, self.labels_defined, self.vars_in_scope = saved
         self.in_macro = False
         return out, specs
+
+    def passes_on_intlike(self, var, body):
+        """does the macro use var where only numbers / constants are allowed (directly or by passing it on)?"""
+        if var in self.intlike_vars:
+            return True
+        found = False
+
+        def walk(ss):
+            nonlocal found
+            for s in ss:
+                k = s[0]
+                if k == "macro":
+                    flags = dict(self.c.macros).get(s[1]) or []
+                    for a, f in zip(s[2], flags):
+                        if f and a == ("const", var):
+                            found = True
+                elif k == "if":
+                    for _, _, b in s[1]:
+                        walk(b)
+                    if s[2]:
+                        walk(s[2])
+                elif k == "switch":
+                    for _, b in s[2]:
+                        walk(b)
+                elif k == "forever":
+                    walk(s[1])
+                elif k == "while":
+                    walk(s[3])
+                elif k == "for":
+                    walk(s[4])
+
+        walk(body)
+        return found
 
     def program(self, nroutines=None, nmacros=0):
         macros = []
@@ -503,7 +558,7 @@ def shape_catalogue():
 def flat_program(rnd: random.Random, nblocks=None, nroutines=None):
     """The C13 class: plain statements, if-chains and break-terminated switches whose blocks hold only plain
     statements, one final terminator per routine."""
-    g = Gen(rnd, Cfg(labels=False, loops=False, ctrl_in_blocks=False, depth=0))
+    g = Gen(rnd, Cfg(labels=False, loops=False, ctrl_in_blocks=False, depth=0, switch_pairs='decompilable'))
     routines = []
     for ri in range(nroutines or rnd.randint(1, 3)):
         body = []
@@ -527,7 +582,7 @@ def flat_program(rnd: random.Random, nblocks=None, nroutines=None):
                         h = ("default",)
                         hasdef = True
                     else:
-                        h = g.casehdr()
+                        h = g.casehdr(hdr)
                     if rnd.random() < 0.25:
                         cases.append((h, []))
                     else:
